@@ -186,20 +186,20 @@ package gocvss31
 //@   requires[wf] (wf31 cvss31)
 //@   inline Impact Exploitability
 //@   ensures[spec] (fp.eq result (tenth (base31K cvss31)))
-//@   ensures[one_decimal_in_scale] (exists-in (k 0 100) (fp.eq result (tenth k)))
+//@   ensures[one_decimal_in_scale] (isTenthIn result 0 100)
 //@   ensures[rating_accepts] (>= (ratingClass result) 0)
 //@   ensures[no_allocation] (= allocs (old allocs))
 
 //@ func (CVSS31).TemporalScore(cvss31)
 //@   requires[wf] (wf31 cvss31)
 //@   ensures[spec] (fp.eq result (tenth (temporalFrom31 (base31K cvss31) cvss31)))
-//@   ensures[one_decimal_in_scale] (exists-in (k 0 100) (fp.eq result (tenth k)))
+//@   ensures[one_decimal_in_scale] (isTenthIn result 0 100)
 //@   ensures[rating_accepts] (>= (ratingClass result) 0)
 //@   ensures[no_allocation] (= allocs (old allocs))
 
 //@ func (CVSS31).EnvironmentalScore(cvss31)
 //@   requires[wf] (wf31 cvss31)
 //@   ensures[spec] (fp.eq result (tenth (envFrom31 (envInner31K cvss31) cvss31)))
-//@   ensures[one_decimal_in_scale] (exists-in (k 0 100) (fp.eq result (tenth k)))
+//@   ensures[one_decimal_in_scale] (isTenthIn result 0 100)
 //@   ensures[rating_accepts] (>= (ratingClass result) 0)
 //@   ensures[no_allocation] (= allocs (old allocs))
